@@ -119,6 +119,10 @@ def inputs(tier):
                                       list(sub), 0]))
                 if size == 2:
                     out.append(("cases", [u, list(sub), 1]))
+    # one string-valued argument: the cases are handed over as bare values
+    for sub in ([0], [2, 0], [1, 2, 0]):
+        out.append(("cases", ["1s", sub, 0]))
+        out.append(("cases", ["1s", sub, 1]))
     # an un-orderable (complex) argument with repeated values
     for sub in ([0, 6], [0, 1, 7], [3, 14, 5], [10, 4, 0, 13], [2, 0, 1, 4]):
         out.append(("cases", ["cplx", sub, 0]))
@@ -137,7 +141,7 @@ def cases(tier, seed):
         # (the small mixed-type universe is kept whole)
         ins = [x for i, x in enumerate(ins)
                if core.pick([x, "in"], 4) == 0
-               or (x[0] == "cases" and x[1][0] in ("mixnum", "cplx")
+               or (x[0] == "cases" and x[1][0] in ("mixnum", "cplx", "1s")
                    and x[1][2] == 0)]
     for ii, ((ik, ispec), (dname, d)) in enumerate(
             itertools.product(ins, DESCS.items())):
@@ -162,6 +166,10 @@ def cases(tier, seed):
                                                        "runner_df")
                                          and (ii // len(DESCS) + ei) % 2 == 0),
                        "dictcases": j % 3 == 1,
+                       # the functional interface called twice with the very
+                       # same description objects; the second call is judged
+                       "twice": core.pick([ik, ispec, dname, vni, vdi, entry,
+                                           "tw"], 3) == 0,
                        # swept values handed over as one-shot generators
                        "valgen": core.pick([ik, ispec, dname, vni, vdi, entry,
                                             "vg"], 4) == 0,
@@ -204,6 +212,8 @@ def check_case(case):
         names = list(cnames) + [a for a, _ in gsub]
         combos = dict(gsub) if gsub else None
         cs = [tuple(c) for c in chosen]
+        # (a single argument: bare values instead of 1-tuples)
+        cs_arg = [c[0] for c in cs] if len(cnames) == 1 else cs
         gp = list(itertools.product(*[v for _, v in gsub]))
         settings = [dict(zip(names, c + g)) for c in chosen for g in gp]
         def union(vals_):
@@ -262,6 +272,19 @@ def check_case(case):
     try:
         with xfn.CallLog() as log:
             if entry in ("to_ds", "to_df"):
+                if case.get("twice") and not isinstance(
+                        next(iter((combos or {"_": []}).values())),
+                        type(x for x in ())):
+                    with xfn.CallLog():
+                        pk = {k_: v_ for k_, v_ in kw.items()
+                              if k_ != "executor"}
+                        if cs is None:
+                            xyz.combo_runner_to_ds(f, combos, to_df=to_df,
+                                                   **desc_kw, **pk)
+                        else:
+                            xyz.case_runner_to_ds(
+                                f, list(cnames), cs_arg, combos=combos,
+                                to_df=to_df, **desc_kw, **pk)
                 if cs is None:
                     out = xyz.combo_runner_to_ds(f, combos, to_df=to_df,
                                                  **desc_kw, **kw)
@@ -284,7 +307,7 @@ def check_case(case):
                         **desc_kw, **kw)
                 else:
                     out = xyz.case_runner_to_ds(
-                        f, list(cnames), cs, combos=combos, to_df=to_df,
+                        f, list(cnames), cs_arg, combos=combos, to_df=to_df,
                         **desc_kw, **kw)
             else:
                 fkw = {"fn_args": list(names)} if sigrev else {}
@@ -313,7 +336,7 @@ def check_case(case):
                     if cs is None:
                         far.harvest_combos(combos, **kw)
                     else:
-                        far.harvest_cases(cs, fn_args=None if sigrev
+                        far.harvest_cases(cs_arg, fn_args=None if sigrev
                                           else list(cnames),
                                           combos=subgrid(), **kw)
                     out = far.full_ds
@@ -322,7 +345,7 @@ def check_case(case):
                     if cs is None:
                         out = runner.run_combos(combos, **kw)
                     else:
-                        out = runner.run_cases(cs, fn_args=None if (
+                        out = runner.run_cases(cs_arg, fn_args=None if (
                             sigrev or case.get("prev_override"))
                                                else list(cnames),
                                                combos=subgrid(), **kw)
